@@ -76,6 +76,30 @@ def plan(tier):
     return out
 
 
+# Hand-made regression shapes (each one a defect repaired in the CLI): enumerated next to the corpus.
+def _g(guard):
+    return {"id": "m", "initial": "a", "states": {"a": {"on": {"GO": {"target": "b", "guard": guard}}}, "b": {}}}
+
+
+SHAPES = {
+    "handler-targets-own-state-with-same-key-child": {"id": "m", "initial": "b", "states": {
+        "b": {"initial": "b", "invoke": {"id": "i1", "src": "svcOne", "onDone": {"target": "#m.b"}, "onError": {"target": "#m.b"}}, "states": {"b": {}}}, "c": {}}},
+    "sibling-target-shadowed-by-child-key": {"id": "m", "initial": "b", "states": {
+        "b": {"initial": "c", "invoke": {"id": "i1", "src": "svcOne", "onDone": {"target": "#m.c"}}, "states": {"c": {}}}, "c": {}}},
+    "and-children": _g({"type": "and", "children": ["gOne", "gTwo"]}),
+    "not-params-guard": _g({"type": "not", "params": {"guard": "gOne"}}),
+    "or-params-children": _g({"type": "or", "params": {"children": ["gOne", {"type": "not", "children": ["gTwo"]}]}}),
+    "not-not": _g({"type": "not", "params": {"guards": [{"type": "not", "params": {"guards": ["gOne"]}}]}}),
+    "and-and": _g({"type": "and", "children": [{"type": "and", "children": ["gOne", "gTwo"]}, "gThree"]}),
+    "param-guard": _g({"type": "limTwo", "params": {"lim": 3}}),
+    "state-in": _g({"type": "stateIn", "params": {"state": "#m.a"}}),
+    "names-only-in-state-ondone": {"id": "m", "initial": "p", "states": {
+        "p": {"initial": "x", "onDone": {"target": "q", "actions": ["afterAll"], "guard": "allGood"}, "states": {"x": {"on": {"GO": "y"}}, "y": {"type": "final"}}}, "q": {}}},
+    "invoke-id-equals-state-key": {"id": "m", "initial": "loading", "on": {"done.invoke.loading": {"actions": ["noteDone"]}}, "states": {
+        "loading": {"invoke": {"id": "loading", "src": "svcOne", "onDone": {"target": "ready"}}}, "ready": {}}},
+}
+
+
 def _corpus_worker(case):
     res = check_case(case)
     return case, res.violations, res.nontrivial, res.inconclusive, res.sample
@@ -97,6 +121,10 @@ def extra_run(tier, seed, jobs):
             for t in TEMPLATES:
                 for am in ("yes", "no"):
                     cases.append({"kind": "corpus", "file": f, "template": t, "async": am, "files": 1 + (i % 2)})
+    for name, cfg in SHAPES.items():
+        for t in TEMPLATES:
+            cases.append({"kind": "gen", "config": copy.deepcopy(cfg), "template": t, "async": "no" if (len(name) + len(t)) % 2 else "yes",
+                          "files": 1 + (len(name) % 2), "shape": name})
     ctx = mp.get_context("fork")
     viol, nt, samples = [], 0, []
     inconcl = 0
@@ -109,7 +137,7 @@ def extra_run(tier, seed, jobs):
             for tag, detail in vs:
                 viol.append({"tag": tag, "detail": detail, "case": case})
     return {"evaluations": len(cases), "nontrivial_count": nt, "violations": viol, "samples": samples,
-            "coverage": {"corpus": {"files": len(CORPUS), "runs": len(cases), "inconclusive": inconcl}}}
+            "coverage": {"corpus": {"files": len(CORPUS), "hand_made_shapes": len(SHAPES), "runs": len(cases), "inconclusive": inconcl}}}
 
 
 def _json_config(spec, d: D, rich_guards: bool, hostile: bool):
@@ -167,6 +195,12 @@ def _json_config(spec, d: D, rich_guards: bool, hostile: bool):
         for one in (inv if isinstance(inv, list) else [inv] if isinstance(inv, dict) else []):
             if isinstance(one, dict) and path and d.chance(35):
                 one["id"] = d.pick([".".join(path), path[-1], ".".join(path)])
+            # a handler that targets its own (invoking) state while a child carries the same key
+            if isinstance(one, dict) and path and isinstance(node.get("states"), dict) and path[-1] in node["states"] and d.chance(70):
+                for hk in ("onDone", "onError"):
+                    h = one.get(hk)
+                    if isinstance(h, dict) and "target" in h:
+                        h["target"] = "#" + str(cfg.get("id", "m")) + "." + ".".join(path)
         for k, c in (node.get("states") or {}).items():
             if isinstance(c, dict):
                 ids(c, path + [k])
